@@ -73,6 +73,14 @@ def gen(run):
             cases.append(mk_case([neg, ("push", G.climb([("num", v + 7), "+", ("macro", "neg", [])]))], "negative-macro-body-unsized", N=32, v=v if N == 32 else None, kind="unsized"))
             cases.append(mk_case([("defi", "im", ["a"], [("op", m, G.climb([("var", "a"), "+", ("num", v + 2)]))]), ("macro", "im", [G.climb([("num", 0), "-", ("num", 2)])])],
                                  "negative-imacro-argument", N=N, v=v, kind="fixed"))
+    # an auto-sized push whose value is TOO LARGE in the first layout rounds only (forward label still small) and
+    # fits under the final labels: only the final value counts -- and the other way round stays an error
+    for k in ((2, 17, 32) if run.tier != "thorough" else range(2, 33)):
+        e = G.climb([("num", 2 ** 256 + k), "-", ("lbl", "end")])
+        cases.append(mk_case([("push", e), ("label", "end"), ("op", "jumpdest", None)], "unsized-transiently-too-large", N=32, v=2 ** 256 + k - 33, kind="unsized"))
+        cases.append(mk_case([("defi", "m", ["c"], [("push", G.climb([("var", "c"), "-", ("lbl", "end")])), ("label", "end"), ("op", "jumpdest", None)]),
+                              ("macro", "m", [("num", 2 ** 256 + k)])], "unsized-transiently-too-large", N=32, v=2 ** 256 + k - 33, kind="unsized"))
+    cases.append(mk_case([("push", G.climb([("num", 2 ** 256 + 33), "-", ("lbl", "end")])), ("label", "end"), ("op", "jumpdest", None)], "unsized-label", N=32, v=2 ** 256, kind="unsized"))
     for _ in range(60 if run.tier == "thorough" else 15):
         N = rng.randrange(1, 33)
         v = rng.choice([0, 1, 256 ** N - 1, 256 ** N, rng.getrandbits(8 * N), rng.getrandbits(8 * N + 3)])
@@ -107,5 +115,5 @@ def oracle(c, ans):
 def check(run):
     cases = gen(run)
     return asmfam.run_family(run, "C09", cases, oracle,
-                             "for each width N: operand 256^N-1 / 256^N as constant, arithmetic (sum and product reaching 256^N), expression macro, macro argument, negative; backward/forward labels at the push1/push2 boundary; label moved across the boundary by back-patching; %push at 2^256-1 / 2^256 / negative, products reaching 2^256 (also with a label factor); boundary values reached through negative intermediate results (expression macro body, macro argument, label distance, instruction macro argument); random values; distinct = distinct sources",
+                             "for each width N: operand 256^N-1 / 256^N as constant, arithmetic (sum and product reaching 256^N), expression macro, macro argument, negative; backward/forward labels at the push1/push2 boundary; label moved across the boundary by back-patching; %push at 2^256-1 / 2^256 / negative, products reaching 2^256 (also with a label factor), values beyond 2^256 in the first layout rounds only; boundary values reached through negative intermediate results (expression macro body, macro argument, label distance, instruction macro argument); random values; distinct = distinct sources",
                              "operand range checks")
